@@ -240,7 +240,7 @@ def check(case: Dict[str, Any]) -> CaseInfo:
 @st.composite
 def c13_case(draw):
     autograd = draw(st.sampled_from([True, True, False]))
-    o = Opts(python_frames=True, early_kernels=True, steps=[0, 1, 2, 3] if not autograd else [1, 2, 3, 0], w_launch=7, w_sync=2, w_op=6, w_rt=1, max_top=4, max_depth=4,
+    o = Opts(fractional_stamps=True, python_frames=True, early_kernels=True, steps=[0, 1, 2, 3] if not autograd else [1, 2, 3, 0], w_launch=7, w_sync=2, w_op=6, w_rt=1, max_top=4, max_depth=4,
              streams=2, second_thread=True, autograd=autograd, device_sync=False, allow_zero_call=False, backward_ann=autograd,
              force_second_thread=autograd, cuda_events=True)
     if autograd and draw(st.sampled_from([True, False, False])):
